@@ -42,7 +42,7 @@ def run(ctx):
 
     def viol(key, what, rp):
         seen.setdefault(key, (what, rp))
-    n_frames = ctx.n(8, 20)
+    n_frames = ctx.n(12, 20)        # >= 10: a bond present in one frame only is then 'rare' for any cross-frame frequency filter
     envs = [dict(OMP_NUM_THREADS="1", C08_SINGLE="1"), dict(OMP_NUM_THREADS="3"), dict(OMP_NUM_THREADS="16", OMP_DYNAMIC="true")]
     if not ctx.quick:
         envs += [dict(OMP_NUM_THREADS="2", OMP_SCHEDULE="dynamic,1"), dict(OMP_NUM_THREADS="5", OMP_SCHEDULE="static,2"), dict(OMP_NUM_THREADS="8", OMP_SCHEDULE="guided"),
